@@ -95,6 +95,11 @@ def scenarios(tier):
     # an explicit -j1 under a parent jobserver that has spare tokens: the user asked for a serial build, so this redo runs
     # its own one-token jobserver; the parent's pipe still holds what it held
     L.append((SC.scn("inherit-n2-explicit-j1-fan3", w["fan3"], ["redo --no-log -j1 top"], visible=VIS, jobserver=2, limit=1), 1))
+    # tokens are bytes of any value: a parent whose tokens are NUL bytes (and one that writes '+' like GNU make)
+    L.append((SC.scn("inherit-fan3-n2-nul-tokens", w["fan3"], ["redo-ifchange top"], visible=VIS, jobserver=2, limit=2,
+                     token_byte=b"\0"), 0 if q else 1))
+    L.append((SC.scn("inherit-fan3-n3-plus-tokens", w["fan3"], ["redo-ifchange top"], visible=VIS, jobserver=3, limit=3,
+                     token_byte=b"+"), 0 if q else 1))
     # the make parent competes: it may take a token out of the pipe at any step and return it later (forced when
     # nothing else can run) -- "token stolen between select and read", starvation and hand-back paths
     L.append((SC.scn("inherit-fan3-n2-make-competes", w["fan3"], ["redo-ifchange top"], visible=VIS, jobserver=2, limit=2,
